@@ -14,6 +14,7 @@ def build(tier, seed):
         PUnit("c6c12-to-sigma-epsilon", [T.CONV], T.REG),
         PUnit("define-substitution", [T.REPLACE_DEFINED], T.REG),
         LUnit("define-offsets-monotone", T.lemma_off_monotone),
+        PUnit("nonbonded-pair-table", [T.GEN_PAIRS], T.REG),
         BUnit("engine-cross-check", selftest.unit),       # CPython vs the symbolic executor on concrete inputs (verifier self-check)
     ] + [u for u in b_top.UNITS if u.name == "c09-preprocess"]
     return {"units": units, "level": "other",
